@@ -44,7 +44,13 @@ func genC20(r *Rng, k int) *RunSpec {
 				iid = fmt.Sprintf("https://%s%s/act/i%d%s", Pick(r, []string{"", "", "", "alice@", "bob:secret@"}), Pick(r, []string{hostR, hostR, hostR + ":8443"}), i, Pick(r, []string{"", "", "?v=1", "#frag"}))
 				ids = append(ids, iid)
 			}
-			if r.Intn(3) == 0 {
+			if r.Intn(9) == 0 {
+				// a Link-derived value: it is what its id says, wherever it points (two bookmarks of one page are two entries)
+				items = append(items, J{"type": Pick(r, []string{"Link", "Mention"}), "id": iid, "href": "https://" + hostR + "/page/" + fmt.Sprint(r.Intn(3))})
+			} else if r.Intn(25) == 0 {
+				// an anonymous embedded value: it has no identity to de-duplicate by
+				items = append(items, J{"type": "Note", "content": fmt.Sprint("anonymous ", i)})
+			} else if r.Intn(3) == 0 {
 				it := J{"type": Pick(r, []string{"Create", "Like", "Note", "Announce"}), "id": iid, "summary": fmt.Sprint("s", i)}
 				// what the application supplies is served as supplied: a page may embed values that carry hidden recipients
 				if r.Intn(4) == 0 {
@@ -199,6 +205,25 @@ func oracleC20(c *DriveCtx, res *Result) {
 					}
 				}
 				if bad {
+					// a page with an entry that has no identity: the library may refuse it (error, nothing written); if it
+					// serves it, what it serves must still not repeat an id
+					s.probe("c20-anonymous-item")
+					if t.Err == nil && t.Rec.Wrote() {
+						if got, err := parseJ(t.Rec.Body.Bytes()); err == nil {
+							dup := map[string]bool{}
+							for _, it := range aslist(got["orderedItems"]) {
+								if id := idOf(it); id != "" {
+									if dup[id] {
+										s.violate("C20", "duplicates-served", site, fmt.Sprintf("the served inbox page repeats %s", id))
+										break
+									}
+									dup[id] = true
+								}
+							}
+						}
+					} else if t.Err != nil && t.Rec.Wrote() {
+						s.violate("C20", "error-after-write", site, "an error was returned after the page had been written")
+					}
 					continue
 				}
 				if _, ok := want["orderedItems"]; ok {
